@@ -53,7 +53,7 @@ pub fn gen_ccase(seed: u64, domain: &str, idx: u64, o: &GenOpts, exact_only: boo
     let (mut sk, mut dk) = gen_pair(&mut rng);
     if op != 0 {
         // alpha operations: typed Ref/Crop or dynamic DynRef/DynCrop sources
-        sk = if dk.is_dyn() { *rng.pick(&[SrcKind::DynRef, SrcKind::DynCrop]) } else { *rng.pick(&[SrcKind::Ref, SrcKind::Crop]) };
+        sk = if dk.is_dyn() { *rng.pick(&[SrcKind::DynRef, SrcKind::DynCrop]) } else { *rng.pick(&[SrcKind::Ref, SrcKind::Crop, SrcKind::User]) };
         if sk == SrcKind::DynCrop && dk != DstKind::DynImage {
             dk = DstKind::DynImage;
         }
